@@ -65,11 +65,14 @@ pub struct StepCfg {
     pub append_value_on_removed: bool,
     /// signatures excluded by construction (open known findings): such calls are skipped
     pub exclude: Vec<String>,
+    /// the property under check: failures that do not hit it do not end the case (the model is
+    /// re-synchronised from the arena and the search goes on).  None: every failure ends the case.
+    pub target: Option<String>,
 }
 
 impl Default for StepCfg {
     fn default() -> Self {
-        StepCfg { snapshot: true, max_live: 48, max_slots: usize::MAX, append_value_on_removed: true, exclude: Vec::new() }
+        StepCfg { snapshot: true, max_live: 48, max_slots: usize::MAX, append_value_on_removed: true, exclude: Vec::new(), target: None }
     }
 }
 
@@ -417,32 +420,38 @@ impl<P: Payload> World<P> {
             if let Some(y) = lk(x, 2) {
                 if lk(y, 1) != Some(x) {
                     out.push(Failure::new(&["C01"], format!("{opname}/wf/next-prev-asym"), format!("slot {x}.next = {y} but slot {y}.prev = {:?}", lk(y, 1))));
-                    return;
+                    bad = true;
+                    break;
                 }
                 // (b) same parent
                 if lk(y, 0) != lk(x, 0) {
                     out.push(Failure::new(&["C01"], format!("{opname}/wf/sibling-parent"), format!("adjacent siblings {x},{y} report parents {:?},{:?}", lk(x, 0), lk(y, 0))));
-                    return;
+                    bad = true;
+                    break;
                 }
                 if y == x {
                     out.push(Failure::new(&["C01", "C02"], format!("{opname}/wf/self-sibling"), format!("slot {x} is its own next sibling")));
-                    return;
+                    bad = true;
+                    break;
                 }
             }
             if let Some(y) = lk(x, 1) {
                 if lk(y, 2) != Some(x) {
                     out.push(Failure::new(&["C01"], format!("{opname}/wf/prev-next-asym"), format!("slot {x}.prev = {y} but slot {y}.next = {:?}", lk(y, 2))));
-                    return;
+                    bad = true;
+                    break;
                 }
             }
             // (d)
             if lk(x, 3).is_some() != lk(x, 4).is_some() {
                 out.push(Failure::new(&["C01"], format!("{opname}/wf/first-last"), format!("slot {x}: first_child = {:?}, last_child = {:?}", lk(x, 3), lk(x, 4))));
-                return;
+                bad = true;
+                break;
             }
             if lk(x, 0) == Some(x) {
                 out.push(Failure::new(&["C01", "C02"], format!("{opname}/wf/self-parent"), format!("slot {x} is its own parent")));
-                return;
+                bad = true;
+                break;
             }
         }
         // (c) children of p = exactly the chain first..last
@@ -473,7 +482,8 @@ impl<P: Payload> World<P> {
                     format!("{opname}/wf/child-chain"),
                     format!("parent slot {p}: nodes naming it as parent = {:?}, chain from first_child = {:?}, last_child = {:?}", named, walk, lk(p, 4)),
                 ));
-                return;
+                bad = true;
+                break;
             }
         }
         // C02: parent walks and sibling walks terminate
@@ -551,15 +561,18 @@ impl<P: Payload> World<P> {
                         sig: format!("{opname}/links-mismatch"),
                         msg: format!("slot {s}: {} is {} but must be {} (all links: got {:?} want {:?})", LINK_NAMES[k], ln(r.links[k]), ln(exp[s][k]), r.links.map(ln), exp[s].map(ln)),
                     });
-                } else {
+                    return out;
+                } else if !out.iter().any(|f| f.sig.ends_with("removed-keeps-links")) {
                     out.push(Failure::new(
                         &["C12"],
                         format!("{opname}/removed-keeps-links"),
                         format!("removed slot {s} still reports {} = {}", LINK_NAMES[k], ln(r.links[k])),
                     ));
                 }
-                return out;
             }
+        }
+        if !out.is_empty() {
+            return out;
         }
         if wf_failed {
             return out;
@@ -608,6 +621,90 @@ impl<P: Payload> World<P> {
                 format!("payload serials dropped by this call: {:?}, expected exactly {:?}", got, expected),
             ));
         }
+    }
+
+    /// Rebuild the reference model from the arena (used after a failure that does not concern the
+    /// property under check): liveness from the removed flags, structure from the links — only if
+    /// the links are well-formed — and payload expectations from the stored values.  Returns false
+    /// if the arena cannot serve as a new ground truth.
+    pub fn resync(&mut self) -> bool {
+        if self.arena.count() != self.m.n.len() {
+            return false;
+        }
+        let Ok(rows) = self.observe() else { return false };
+        for (s, r) in rows.iter().enumerate() {
+            self.m.n[s].live = !r.removed;
+        }
+        let mut out = Vec::new();
+        self.check_wf(&rows, "resync", &mut out);
+        if !out.is_empty() {
+            return false;
+        }
+        let slot_of = |id: NodeId| usize::from(id) - 1;
+        let n = rows.len();
+        self.m.chains.clear();
+        for s in 0..n {
+            self.m.n[s].children.clear();
+            self.m.n[s].parent = None;
+        }
+        for s in 0..n {
+            if !self.m.n[s].live {
+                if self.m.n[s].free == FreeState::NotFree {
+                    self.m.n[s].free = FreeState::Free;
+                }
+                continue;
+            }
+            self.m.n[s].free = FreeState::NotFree;
+            self.m.n[s].parent = rows[s].links[0].map(slot_of);
+            let mut kids = Vec::new();
+            let mut cur = rows[s].links[3].map(slot_of);
+            while let Some(c) = cur {
+                kids.push(c);
+                if kids.len() > n {
+                    return false;
+                }
+                cur = rows[c].links[2].map(slot_of);
+            }
+            self.m.n[s].children = kids;
+        }
+        for s in 0..n {
+            if self.m.n[s].live && self.m.n[s].parent.is_none() && rows[s].links[1].is_none() {
+                let mut ch = vec![s];
+                let mut cur = rows[s].links[2].map(slot_of);
+                while let Some(c) = cur {
+                    ch.push(c);
+                    if ch.len() > n {
+                        return false;
+                    }
+                    cur = rows[c].links[2].map(slot_of);
+                }
+                self.m.chains.push(ch);
+            }
+        }
+        // payloads
+        for s in 0..n {
+            if !self.m.n[s].live {
+                continue;
+            }
+            let id = self.m.n[s].id;
+            let got = catch_unwind(AssertUnwindSafe(|| self.arena.get(id).map(|n| (n.get().serial(), n.get().val()))));
+            match got {
+                Ok(Some((serial, val))) => {
+                    self.m.n[s].serial = serial;
+                    self.m.n[s].val = val;
+                }
+                _ => return false,
+            }
+        }
+        self.track_drops = false;
+        // is the rebuilt model self-consistent?
+        let exp = self.m.expected_links();
+        for s in 0..n {
+            if self.m.n[s].live && rows[s].links != exp[s] {
+                return false;
+            }
+        }
+        true
     }
 
     // ---------------------------------------------------------------- keys for distinctness
